@@ -351,7 +351,14 @@ Definition entry (sel : Z) (toks : list Z) : list Z :=
                       all2 its (fun a b => Bool.eqb (vm a b)
                                              (let j := vc a b in if j =? 0 then negb (key_lt a b) else j <? 0)) &&
                       same_multiset out (map i_id its))
-          else eBool (swo_b its m && total_b its m && law_sorted m outs)
+          else
+            let ne (a b : item) := negb (i_id a =? i_id b) in
+            eBool (swo_b its m && total_b its m && law_sorted m outs &&
+                   (* the VictimQueueOrderFn answers (reflexive on the diagonal by
+                      construction): on DIFFERENT queues exactly one direction, and
+                      transitive on all triples of different queues *)
+                   all2 its (fun a b => implb (ne a b) (Bool.eqb (vm a b) (negb (vm b a)))) &&
+                   all3 its (fun a b d => implb (ne a b && ne b d && ne a d && vm a b && vm b d) (vm a d)))
       | None => bad_input end
   | 107 => match run_dec (let* mode := dZ in let* before := dList dZ in let* o := dOp in
                           let* ret_ := dOpt dZ in let* after := dList dZ in
